@@ -10,10 +10,13 @@ from mc.sem.jet import ONE, Ambiguous, Undefined
 CELL, EXT, INT = "cell", "exterior_facet", "interior_facet"
 
 
-def envs_for(integral_type, cellname, gdim, complex_mode=False, n=1, salt=0):
-    """Environments appropriate for an integral type."""
+def envs_for(integral_type, cellname, gdim, complex_mode=False, n=1, salt=0, both_orientations=False):
+    """Environments appropriate for an integral type.
+
+    both_orientations: additionally the second vertex set of the catalogue (det J < 0 on non-immersed cells) with
+    cell orientation -1 (which only immersed cells look at)."""
     if integral_type == CELL:
-        out = EV.cell_envs(cellname, gdim, n=n, salt=salt)
+        out = EV.cell_envs(cellname, gdim, n=max(n, 2) if both_orientations else n, salt=salt)
         if complex_mode:
             for e in out:
                 e.fields.complex_mode = True
@@ -21,10 +24,16 @@ def envs_for(integral_type, cellname, gdim, complex_mode=False, n=1, salt=0):
     tdim = EV.TDIM[cellname]
     if integral_type == EXT:
         facets = list(range(tdim + 1))[: max(1, n + 1)]
-        return EV.facet_envs(cellname, gdim, complex_mode=complex_mode, facets=facets, salt=salt)
+        out = EV.facet_envs(cellname, gdim, complex_mode=complex_mode, facets=facets, salt=salt)
+        if both_orientations:
+            out += EV.facet_envs(cellname, gdim, complex_mode=complex_mode, facets=facets, salt=salt + 20, which=1, orientation=-1)
+        return out
     if integral_type == INT:
         facets = list(range(tdim + 1))[:n]
-        return EV.interior_facet_envs(cellname, gdim, complex_mode=complex_mode, facets=facets, salt=salt)
+        out = EV.interior_facet_envs(cellname, gdim, complex_mode=complex_mode, facets=facets, salt=salt)
+        if both_orientations:
+            out += EV.interior_facet_envs(cellname, gdim, complex_mode=complex_mode, facets=facets, salt=salt + 20, which=1, orientation=-1, perms=[None])
+        return out
     raise ValueError(integral_type)
 
 
